@@ -28,10 +28,15 @@ type tbl struct {
 }
 
 func newTbl(c *core.Ctx) *tbl {
-	return &tbl{c: c, callee: map[*ssa.Function]func(*absint.Interp, []absint.Value) absint.Value{},
+	t := &tbl{c: c, callee: map[*ssa.Function]func(*absint.Interp, []absint.Value) absint.Value{},
 		ext:     map[string]func(*absint.Interp, []absint.Value) absint.Value{},
 		invoke:  map[*types.Func]func(*absint.Interp, []absint.Value) absint.Value{},
 		invokeN: map[string]func(*absint.Interp, []absint.Value) absint.Value{}}
+	// reflectx.Id renders a value's type for log and error texts only
+	if idFn := c.Func("util/reflectx", "Id"); idFn != nil {
+		t.callee[idFn] = func(ip *absint.Interp, a []absint.Value) absint.Value { return &absint.Opaque{Why: "text"} }
+	}
+	return t
 }
 
 func (t *tbl) newErr(what string) *absint.Tok {
